@@ -20,7 +20,6 @@ import asyncio
 import itertools
 import json
 import logging
-import os
 
 import falcon
 import falcon.asgi
@@ -46,6 +45,7 @@ ERR = {
 KNOWN_CLOSE_NOT_RECORDED = 'ws-close-send-failure-not-recorded'
 KNOWN_HANDLER_NO_CLOSE = 'ws-custom-error-handler-leaves-socket-unclosed'
 KNOWN_PUMP_STOPPED = 'ws-receive-after-incomplete-close-assertion'
+KNOWN_ERROR_CLOSE_NOT_RETRIED = 'ws-error-path-close-failure-not-retried'
 
 
 class CustomErr(Exception):
@@ -549,6 +549,17 @@ def explain(o):
     # (2) a custom error handler that returns without closing: nothing closes the socket afterwards
     if o.terminal == ('handled',) and drv.outcome == 'done':
         take(KNOWN_HANDLER_NO_CLOSE, lambda p: p[0] == 'no-close-at-end')
+    # (4) the close issued on an error path (default HTTPError/HTTPStatus/Exception handlers, cleanup after a
+    #     custom handler) is attempted once: when the server's send fails on it with an error that does not
+    #     mean the client is gone, the error escapes the app and the still connected client gets no close.
+    #     (After a normal return the same failure IS retried with error_close_code - not classified here.)
+    fail = case['fail']
+    if fail and fail.get('kind') == 'runtime' and drv.outcome == 'raised' and isinstance(drv.exc, RuntimeError) \
+            and 'simulated transient' in str(drv.exc) and o.terminal and o.terminal[0] in ('http', 'unexpected', 'handled'):
+        k = fail['at']
+        if k < len(drv.attempts) and k not in c.attributed and drv.attempts[k][2] == 'raised:runtime' \
+                and drv.attempts[k][1].get('type') == 'websocket.close' and k == len(drv.attempts) - 1:
+            take(KNOWN_ERROR_CLOSE_NOT_RETRIED, lambda p: p[0] == 'no-close-at-end')
     if rest:
         out.append((None, rest))
     return out
@@ -673,15 +684,14 @@ def scripts_upto(alphabet, maxlen):
 
 
 def faults_for(rec, base_case, o, idx, all_kinds):
-    """Fault enumeration: every send index of the fault-free run, connection-lost kinds (persistent)
-    and an unrelated one-shot error on non-close events."""
+    """Fault enumeration: every send index of the fault-free run (accept, data and close events, whoever
+    issued them): connection-lost kinds (persistent) and an unrelated one-shot error (the client stays
+    connected, the next send works)."""
     n = len(o.drv.attempts)
     for k in range(n):
         ev = o.drv.attempts[k][1]
         kinds = list(D.FAIL_KINDS) if all_kinds else [D.FAIL_KINDS[(idx + k) % len(D.FAIL_KINDS)]]
         for kind in kinds:
-            if kind == 'runtime' and ev.get('type') == 'websocket.close':
-                continue
             case = dict(base_case)
             case['fail'] = {'at': k, 'kind': kind}
             run_case(rec, case, 'fault')
@@ -880,8 +890,9 @@ def block_c(rec):
                         acc['sub'] = sub
                     run_case(rec, {'spec': spec, 'offered': ['wamp', 'graphql-ws'], 'strict': strict,
                                    'steps': [acc] + tail, 'queue': 0 if idx % 2 else 3}, 'subprotocol')
-    for hdrs in ([['Sec-WebSocket-Protocol', 'wamp']], {'X-A': 'b', 'Set-Cookie': 'k=v'}, [], [['A', 'b'], ['A', 'c']]):
-        for spec in (None, '2.0', '2.1', '2.4'):
+    for hdrs in ([['Sec-WebSocket-Protocol', 'wamp']], {'X-A': 'b', 'SEC-WEBSOCKET-PROTOCOL': 'wamp'},
+                 {'X-A': 'b', 'Set-Cookie': 'k=v'}, [], [['A', 'b'], ['A', 'c']]):
+        for spec in (None, '2.0', '2.1', '2.2', '2.3', '2.4'):
             idx += 1
             if idx % rec.nshards != rec.shard:
                 continue
@@ -1041,7 +1052,9 @@ def rnd_case(rng):
 def block_random(rec):
     rng = rec.rng
     n = 0
-    while rec.budget_ok(0.9):
+    batches = 0
+    while batches < 8 or rec.budget_ok(0.9):      # a small count-sized minimum even on a starved machine
+        batches += 1
         for _ in range(40):
             case = rnd_case(rng)
             o = run_case(rec, case, 'random')
@@ -1053,8 +1066,6 @@ def block_random(rec):
                 fc = dict(case)
                 k = rng.randrange(na)
                 kind = rng.choice(D.FAIL_KINDS)
-                if kind == 'runtime' and o.drv.attempts[k][1].get('type') == 'websocket.close':
-                    kind = 'oserror'
                 fc['fail'] = {'at': k, 'kind': kind}
                 run_case(rec, fc, 'random-fault')
                 rec.count('fault.cases')
